@@ -128,6 +128,7 @@ func main() {
 	seed := flag.Uint64("seed", 1, "seed")
 	n := flag.Int("n", 3, "seeds per scenario")
 	bitsN := flag.Uint("bits", 61, "size of the toy modulus")
+	faults := flag.Int("faults", 0, "fault mode: at most this many fault positions per party and scenario (0 = off)")
 	flag.Parse()
 	toy.SetupBig(*bitsN)
 	w := tr.NewW(*out)
@@ -152,5 +153,94 @@ func main() {
 			}
 		}
 	}
+	// ---- fault mode: one transient read fault at every position of every party's protocol stream.  A party whose random source
+	// failed while it was sampling must abort: going on would mean using a value that was not drawn from the source.
+	if *faults > 0 {
+		for _, sc := range scen.Scenarios() {
+			sd := *seed*1000003 + 5
+			base := scen.NewStreams(sd)
+			a := run(sc, base)
+			if !a.ok {
+				continue
+			}
+			for _, p := range a.parties {
+				rec := base.Rec[p]
+				if rec == nil {
+					continue
+				}
+				calls := rec.Calls
+				step := 1
+				if calls > *faults {
+					step = (calls + *faults - 1) / *faults
+				}
+				pos := map[int]bool{}
+				for k := 1; k <= calls; k += step {
+					pos[k] = true
+				}
+				for _, k := range []int{1, 2, 3, 4, calls - 1, calls} { // the first and last reads always
+					if k >= 1 && k <= calls {
+						pos[k] = true
+					}
+				}
+				for k := 1; k <= calls; k++ {
+					if !pos[k] {
+						continue
+					}
+					st := scen.NewStreams(sd)
+					st.Fault[p] = k
+					ev := faultRun(sc, st, p)
+					ev["a"], ev["k"], ev["proto"], ev["p"], ev["at"], ev["calls"] = "fault", fmt.Sprintf("%s:fault:%d", sc.Name, p), sc.Name, uint64(p), k, calls
+					w.Emit(ev)
+				}
+			}
+		}
+	}
 	fmt.Printf("events=%d\n", w.N)
+}
+
+// faultRun runs a scenario whose party p suffers one transient read fault and projects what happened.
+func faultRun(sc scen.Scenario, st *scen.Streams, p ID) map[string]any {
+	ev := map[string]any{"built": true, "delivered": false, "faultRound": 0, "completed": []uint64{}, "rejects": []any{}, "pCompleted": false, "pRejected": false, "panic": false, "timeout": false}
+	var b *scen.Built
+	func() {
+		defer func() {
+			if r := recover(); r != nil { // the scenario builder panics when a constructor fails: the fault hit a constructor
+				ev["built"] = false
+			}
+		}()
+		b = sc.Build(st)
+	}()
+	rec := st.Rec[p]
+	if rec != nil && rec.FailRound != 0 {
+		ev["delivered"], ev["faultRound"] = true, rec.FailRound
+	}
+	if b == nil {
+		ev["built"] = false
+		return ev
+	}
+	res := proto.Run(b.Parties, nil, nil)
+	if rec != nil && rec.FailRound != 0 {
+		ev["delivered"], ev["faultRound"] = true, rec.FailRound
+	}
+	ev["completed"] = ad.IDsU(res.Completed)
+	rj := []any{}
+	for _, r := range res.Rejects {
+		rj = append(rj, map[string]any{"party": uint64(r.Party), "round": r.Round, "err": r.Err, "panic": r.Panic, "timeout": r.Timeout})
+		if r.Party == p {
+			ev["pRejected"] = true
+		}
+		if r.Panic {
+			ev["panic"] = true
+		}
+		if r.Timeout {
+			ev["timeout"] = true
+		}
+	}
+	ev["rejects"] = rj
+	for _, id := range res.Completed {
+		if id == p {
+			ev["pCompleted"] = true
+		}
+	}
+	return ev
 }
